@@ -74,6 +74,9 @@ func (a *Address) UnmarshalText(input []byte) error {
 	if err != nil {
 		return err
 	}
+	if len(decoded) != AddressLen {
+		return fmt.Errorf("failed to parse address: length of bytes is %d, expected %d", len(decoded), AddressLen)
+	}
 
 	copy(a[:], decoded)
 	return nil
